@@ -10,13 +10,29 @@ fn source_pixels(img: &Image, bg: Option<RGBA>) -> Vec<Vec<u8>> {
             let [r, g, b, a] = c.to_rgba();
             if a == 255 {
                 vec![r, g, b]
-            } else {
-                // only alpha 0 is generated: the pixel shows the background
+            } else if a == 0 {
                 let [r, g, b, _] = bg.unwrap_or(RGBA::new(0, 0, 0, 255)).to_rgba();
+                vec![r, g, b]
+            } else {
+                // translucent: composited over the background with the library's own blend (judged with a tolerance of one level)
+                let [r, g, b, _] = bg.unwrap_or(RGBA::new(0, 0, 0, 255)).blend_over(*c).to_rgba();
                 vec![r, g, b]
             }
         })
         .collect()
+}
+
+/// a writer that accepts at most `1` bytes per call (pipes and non-blocking descriptors do that)
+struct Short(Vec<u8>, usize);
+impl std::io::Write for Short {
+    fn write(&mut self, buf: &[u8]) -> std::io::Result<usize> {
+        let n = buf.len().min(self.1);
+        self.0.extend_from_slice(&buf[..n]);
+        Ok(n)
+    }
+    fn flush(&mut self) -> std::io::Result<()> {
+        Ok(())
+    }
 }
 
 /// c12-drive --n N --seed S
@@ -46,6 +62,9 @@ pub fn drive(args: &[String]) {
         }
         let bg = if rnd.chance(1, 2) { Some(RGBA::new(10, 200, 30, 255)) } else { None };
         let transparent = bg.is_some() && rnd.chance(1, 2);
+        // every 7th small image has translucent pixels (few colours, so that the composites stay below 256 levels)
+        let soft = round % 7 == 6 && w <= 24;
+        let ncol = if soft { ncol.min(3) } else { ncol };
         let runs = rnd.chance(1, 2) || w > 200;
         let mut last = palette[0];
         let mut k = 0usize;
@@ -60,6 +79,10 @@ pub fn drive(args: &[String]) {
                     let [r, g, b, _] = last.to_rgba();
                     return RGBA::new(r, g, b, 0);
                 }
+                if soft && rnd.chance(1, 2) {
+                    let [r, g, b, _] = last.to_rgba();
+                    return RGBA::new(r, g, b, [1u8, 4, 14, 64, 128, 200, 254][rnd.below(7)]);
+                }
             }
             last
         }));
@@ -72,21 +95,23 @@ pub fn drive(args: &[String]) {
             for img in imgs.iter() {
                 let mut b1 = Vec::new();
                 hnd.draw(&mut b1, img, Position::new(0, 0)).unwrap();
-                let mut b2 = Vec::new();
+                // the repeated draw goes into a writer that makes short writes
+                let mut b2 = Short(Vec::new(), [1usize, 7, 64, 4096][recs.len() % 4]);
                 hnd.draw(&mut b2, img, Position::new(3, 3)).unwrap();
-                recs.push((img.width(), img.height(), source_pixels(img, bg), b1.clone(), b1 == b2));
+                let b2 = b2.0;
+                recs.push((img.width(), img.height(), source_pixels(img, bg), b1.clone(), b1 == b2, soft));
             }
             recs
         });
         match res {
             Ok(recs) => {
-                for (w, h, px, bytes, same) in recs {
-                    out.rec(&json!({"id": id, "t": "img", "w": w, "h": h, "px": px, "bytes": bytes, "same": same, "ncol": ncol, "panic": ""}));
+                for (w, h, px, bytes, same, soft) in recs {
+                    out.rec(&json!({"id": id, "t": "img", "w": w, "h": h, "px": px, "bytes": bytes, "same": same, "ncol": ncol, "tol": if soft { 1 } else { 0 }, "panic": ""}));
                     id += 1;
                 }
             }
             Err(m) => {
-                out.rec(&json!({"id": id, "t": "img", "w": w, "h": h, "px": [], "bytes": [], "same": true, "ncol": ncol, "panic": m}));
+                out.rec(&json!({"id": id, "t": "img", "w": w, "h": h, "px": [], "bytes": [], "same": true, "ncol": ncol, "tol": 0, "panic": m}));
                 id += 1;
             }
         }
